@@ -4,6 +4,9 @@ import (
 	"fmt"
 	"go/token"
 	"go/types"
+	"os"
+	"path/filepath"
+	"regexp"
 	"sort"
 	"strings"
 
@@ -59,6 +62,7 @@ func (fr *frame) execCall(call *ssa.Call, c *ssa.CallCommon, st *State, reach st
 	if c.Signature().Results().Len() == 1 {
 		resT = c.Signature().Results().At(0).Type()
 	}
+	fr.crossCallState(c, reach, pos)
 	var args []*Val
 	if c.IsInvoke() {
 		recv := fr.valOf(c.Value)
@@ -1167,4 +1171,50 @@ func (fr *frame) lockOp(key string, args []*Val, st *State, reach string, pos to
 	u.heapSet(st, "GH:locks", "(Array Int Int)", fmt.Sprintf("(store %s %s %d)", h, id, set))
 	u.locksUsed = true
 	return &Val{t: "0"}, true
+}
+
+// crossCallState: the frame condition of every contract in /repo is "nothing that outlives the call is kept in package
+// variables": results are stated as functions of the arguments and the configuration. A unit that hands a package-level
+// sync.Pool or sync.Map of /repo to a call (Get/Put, Load/Store/LoadOrStore ...), or updates a package-level map outside
+// the package initialiser, keeps state between calls (a buffer another request filled, a verdict or key cached under a
+// name the peer chooses); no contract written over one call can account for it, and the obligation fails by itself.
+// Variables the package's contract file names are exempt (the contracts talk about them).
+func (fr *frame) crossCallState(c *ssa.CallCommon, reach string, pos token.Pos) {
+	if fr.pure || (fr.fn.Synthetic != "" && fr.fn.Name() == "init") {
+		return
+	}
+	ops := append([]ssa.Value{}, c.Args...)
+	if c.IsInvoke() {
+		ops = append(ops, c.Value)
+	}
+	for _, a := range ops {
+		g, ok := a.(*ssa.Global)
+		if !ok || !fr.u.eng.keptBetweenCalls(g) {
+			continue
+		}
+		pt, ok := g.Type().Underlying().(*types.Pointer)
+		if !ok {
+			continue
+		}
+		nt, ok := pt.Elem().(*types.Named)
+		if !ok || nt.Obj().Pkg() == nil || nt.Obj().Pkg().Path() != "sync" || (nt.Obj().Name() != "Pool" && nt.Obj().Name() != "Map") {
+			continue
+		}
+		fr.u.oblige(fr.obName("frame", "cross-call-state."+g.Name()), "frame", nil, reach, "false", fr.pos(pos),
+			"package variable "+g.Name()+" (sync."+nt.Obj().Name()+") carries state from one call to the next; the contracts state each result as a function of the call's own arguments")
+	}
+}
+
+// keptBetweenCalls: a package-level variable of /repo that the package's contract file does not name
+func (e *Engine) keptBetweenCalls(g *ssa.Global) bool {
+	if g.Pkg == nil || !strings.HasPrefix(g.Pkg.Pkg.Path(), modPath) {
+		return false
+	}
+	dir := strings.TrimPrefix(strings.TrimPrefix(g.Pkg.Pkg.Path(), modPath), "/")
+	if text, err := os.ReadFile(filepath.Join(repoDir, dir, "verif_contracts.go")); err == nil {
+		if regexp.MustCompile(`\b` + regexp.QuoteMeta(g.Name()) + `\b`).Match(text) {
+			return false
+		}
+	}
+	return true
 }
